@@ -42,7 +42,11 @@ def run(ctx: Ctx) -> None:
     ctx.check("C03.R9", "protocol.ws_stream:WSStream.app_send", "app_send: `if self.closed: return` first", ok, "messages after closure must be accepted silently", first)
     aph = repo.func("protocol.http_stream", "HTTPStream.app_send")
     none_arm = [n for n in walk_local(aph) if isinstance(n, ast.If) and norm(n.test) == "message is None"]
-    ok = len(none_arm) == 1 and len(none_arm[0].body) == 1 and isinstance(none_arm[0].body[0], ast.If) and norm(none_arm[0].body[0].test) == "not self.closed" and not none_arm[0].body[0].orelse
+    ok = len(none_arm) == 1
+    if ok:
+        # everything the exit does (calls, state changes) happens only while not closed
+        effects = [n for st in none_arm[0].body for n in ast.walk(st) if isinstance(n, (ast.Await, ast.Assign, ast.AugAssign)) or (isinstance(n, ast.Expr) and isinstance(n.value, ast.Call))]
+        ok = bool(effects) and all(("self.closed", False) in guard_atoms(n, stop=none_arm[0]) for n in effects if not isinstance(getattr(n, "_parent", None), ast.Await))
     ctx.check("C03.R9", "protocol.http_stream:HTTPStream.app_send", "app_send(None) acts only while not closed", ok, "the application's exit after closure must have no effect", none_arm[0] if none_arm else aph)
 
     # R6
